@@ -32,19 +32,15 @@ impl LintPass for OverlappingFunctionCheck {
                     .any(|prev| prev.functions().len() < shared_by);
             if shared_by > 1 && (is_entry || sharing_starts_here) {
                 // HACK: Create a dummy label with the same name
-                let labels = node.labels();
-                let labels = labels
-                    .iter()
-                    .map(|l| Label {
-                        name: l.clone(),
-                        key: Uuid::new_v4(),
-                        token: l.raw_token().clone(),
-                    })
-                    .collect::<Vec<_>>();
-                // Name the alphabetically first of the entry's labels, not
-                // whichever the label set happens to yield first (positions
-                // cannot be compared: the labels may sit in different files)
-                let label = labels.iter().min_by(|a, b| a.name.cmp(&b.name));
+                // Name the label the program writes first: not whichever the
+                // label set happens to yield first, and not the smallest name
+                // either (renaming a label must not move the warning)
+                let label = node.labels_in_order().first().map(|l| Label {
+                    name: l.clone(),
+                    key: Uuid::new_v4(),
+                    token: l.raw_token().clone(),
+                });
+                let label = label.as_ref();
 
                 // An instruction without a label stands for itself
                 let place = match label {
